@@ -25,6 +25,10 @@ monitor, `Lemmas/C24World.lean`; proofs in `Lemmas/C24Coh.lean`, `C24RankStep.le
   abort of an accepted link transmission, E3 NXT with an idle parser only when a byte is on the bus)
   the observer on the pins commits exactly the register window's completed writes, its registers
   equal the shadow registers (or the latched pair while `done` is shown);
+* `write_carries_requested_value` — whenever the window reports `done`, the PHY register it addressed
+  holds the value the control inputs requested for that register in the cycle the write was accepted
+  (whatever the inputs did during the write), `settled_regs_equal_requested` — nothing pending ⇒ PHY
+  registers = requested settings; both for all histories and every such PHY;
 * `converges` / `converges_from_reset` — control inputs constant, bounded fairness `liveCycle K T`
   (`K`, `T` universally quantified), `N` DIR-high cycles in the history: after
   `convergeBound K T N = 3(2K+6) + T + (2K+5)·N` cycles PHY registers = shadows = requested settings,
@@ -361,9 +365,10 @@ exactly the register window's completed writes.  Precisely, with `y` the state a
   being shown included), and no write went to an address other than 0x04 / 0x0A;
 * while `done` is low (window idle or in the middle of a write, transmissions included) the PHY's
   registers equal the shadow registers;
-* while `done` is shown the register the window latched holds the latched value — which the
-  control translator credits to that register's shadow at this clock edge (`credit`) — and the
-  other one equals its shadow;
+* while `done` is shown the register the window latched holds the latched value — which is the
+  value the control inputs requested for that register in the cycle the write was accepted (ghost
+  `acc04` / `acc0A` of the monitor), and which the control translator credits to that register's
+  shadow at this clock edge (`credit`) — and the other one equals its shadow;
 * the window's latched address is a control register whenever it is busy or done, and the PHY's bus
   parser is inside a transmission exactly when the transmit translator is. -/
 theorem phy_tracks_window (cfg : Config) (h : List UtmiIn)
@@ -372,8 +377,10 @@ theorem phy_tracks_window (cfg : Config) (h : List UtmiIn)
     y.p.writes = doneCount cfg (Utmi.init cfg) h + (if y.u.win.done then 1 else 0) ∧ y.p.other = 0 ∧
     (y.u.win.done = false → y.p.r04 = y.u.ctl.cur04 ∧ y.p.r0A = y.u.ctl.cur0A) ∧
     (y.u.win.done = true →
-      (y.u.win.curAddr = ADDR_FUNCTION_CONTROL ∧ y.p.r04 = y.u.win.curWrite ∧ y.p.r0A = y.u.ctl.cur0A) ∨
-      (y.u.win.curAddr = ADDR_OTG_CONTROL ∧ y.p.r0A = y.u.win.curWrite ∧ y.p.r04 = y.u.ctl.cur04)) ∧
+      (y.u.win.curAddr = ADDR_FUNCTION_CONTROL ∧ y.p.r04 = y.u.win.curWrite ∧ y.u.win.curWrite = y.e.acc04 ∧
+        y.p.r0A = y.u.ctl.cur0A) ∨
+      (y.u.win.curAddr = ADDR_OTG_CONTROL ∧ y.p.r0A = y.u.win.curWrite ∧ y.u.win.curWrite = y.e.acc0A ∧
+        y.p.r04 = y.u.ctl.cur04)) ∧
     (y.p.bus = .transmitting ↔ y.u.tx.st = .transmit) := by
   intro y
   have hc : Coh y := coh_run cfg _ h (coh_init cfg) hl
@@ -387,7 +394,7 @@ theorem phy_tracks_window (cfg : Config) (h : List UtmiIn)
   case idle =>
     obtain ⟨_, _, h4⟩ := h3
     rcases h4 with ⟨g1, _, gt, gb, ga, g4, gA⟩ | ⟨g1, _, g4, gA, gt⟩
-    · rcases ga with ga | ga <;> simp_all [ADDR_FUNCTION_CONTROL, ADDR_OTG_CONTROL]
+    · rcases ga with ⟨ga, gv⟩ | ⟨ga, gv⟩ <;> simp_all [ADDR_FUNCTION_CONTROL, ADDR_OTG_CONTROL]
     · rcases gt with ⟨gt, gb⟩ | ⟨gt, gb⟩ | ⟨gt, gb⟩ <;> simp_all
   case startWrite => obtain ⟨⟨_, gt, _, gd, g4, gA⟩, gb, _⟩ := h3; simp_all
   case sendWriteAddress => obtain ⟨⟨_, gt, _, gd, g4, gA⟩, gb, _⟩ := h3; simp_all
@@ -407,6 +414,97 @@ theorem settled_regs_equal_requested (cfg : Config) (h : List UtmiIn) (c : Contr
   obtain ⟨_, _, h3, _⟩ := phy_tracks_window cfg h hl
   obtain ⟨g4, gA⟩ := h3 hd
   exact ⟨g4.trans h4, gA.trans hA⟩
+
+/-! ## Each write carries the value requested for the register it addresses -/
+
+/-- The control inputs of the most recent cycle of the history in which the register window accepted
+a write request (`r` if there is none), computed on the translator alone. -/
+def lastAccepted (cfg : Config) : Utmi → List UtmiIn → Option Controls → Option Controls
+  | _, [], r => r
+  | s, i :: is, r =>
+    lastAccepted cfg (s.step cfg i).1 is
+      (if s.win.st == .idle && (s.ctlOut i.ctrl).writeReq then some i.ctrl else r)
+
+/-- The monitor's ghosts `acc04` / `acc0A` are the requested values of that cycle, and there has been
+such a cycle whenever the window is busy or shows `done`. -/
+def AccRel (x : World) (r : Option Controls) : Prop :=
+  (∀ c, r = some c → x.e.acc04 = functionControl c ∧ x.e.acc0A = otgControl c) ∧
+  ((x.u.win.st ≠ .idle ∨ x.u.win.done = true) → r ≠ none) ∧
+  (x.u.win.st = .idle ∨ x.u.win.st = .startWrite ∨ x.u.win.st = .sendWriteAddress ∨
+    x.u.win.st = .holdWrite ∨ x.u.win.st = .stopping)
+
+theorem accRel_step (cfg : Config) (x : World) (i : UtmiIn) (r : Option Controls) (h : AccRel x r) :
+    AccRel (x.step cfg i)
+      (if x.u.win.st == .idle && (x.u.ctlOut i.ctrl).writeReq then some i.ctrl else r) := by
+  obtain ⟨h1, h2, h3⟩ := h
+  obtain ⟨⟨win, ctl, tx, rx, rdy, cnt⟩, p, e⟩ := x
+  obtain ⟨wst, ca, cw, d, oq, sp, wdn, rd⟩ := win
+  simp only at h1 h2 h3
+  rcases h3 with g | g | g | g | g <;> subst g
+  · cases hq : (Utmi.ctlOut ⟨⟨.idle, ca, cw, d, oq, sp, wdn, rd⟩, ctl, tx, rx, rdy, cnt⟩ i.ctrl).writeReq
+    · refine ⟨?_, ?_, ?_⟩
+      · intro c hc; simp only [hq, Bool.and_false, Bool.false_eq_true, if_false] at hc
+        have := h1 c hc
+        simpa [World.step, Env.step, hq] using this
+      · simp [World.step, Utmi.step, Window.step, hq]
+      · simp [World.step, Utmi.step, Window.step, hq]
+    · refine ⟨?_, ?_, ?_⟩
+      · intro c hc
+        simp only [hq, beq_self_eq_true, Bool.and_self, if_true, Option.some.injEq] at hc
+        subst hc
+        simp [World.step, Env.step, hq]
+      · simp [hq]
+      · simp [World.step, Utmi.step, Window.step, hq]
+  all_goals
+    refine ⟨?_, ?_, ?_⟩
+    · intro c hc
+      simp only [show ((WState.idle == WState.idle) = true) from rfl, Bool.false_and, Bool.false_eq_true, if_false,
+        reduceCtorEq, beq_iff_eq] at hc
+      have := h1 c (by simpa using hc)
+      simpa [World.step, Env.step] using this
+    · intro _
+      have := h2 (by simp)
+      simpa using this
+    · simp only [World.step, Utmi.step, Window.step]
+      (repeat' split) <;> simp
+
+theorem accRel_run (cfg : Config) (x : World) (h : List UtmiIn) (r : Option Controls) (hr : AccRel x r) :
+    AccRel (World.run cfg x h) (lastAccepted cfg x.u h r) := by
+  induction h generalizing x r with
+  | nil => exact hr
+  | cons i is ih =>
+    simp only [World.run, lastAccepted]
+    have := ih (x.step cfg i) _ (accRel_step cfg x i r hr)
+    simpa [World.step] using this
+
+/-- **write_carries_requested_value** — the first clause of the property at history level.  For every
+history from reset whose PHY obeys `safeCycle`, whatever the control inputs do (changes while the
+write is in flight, reverts, changes of the other register included): whenever the register window
+reports a write `done`, there was a cycle in which it accepted that write, and the PHY register it
+addressed now holds the value that the control inputs `c` *of that cycle* requested for *that*
+register; the other PHY register still equals its shadow. -/
+theorem write_carries_requested_value (cfg : Config) (h : List UtmiIn)
+    (hl : SafeOk cfg (World.init cfg) h = true) :
+    let y := World.run cfg (World.init cfg) h
+    y.u.win.done = true →
+    ∃ c, lastAccepted cfg (Utmi.init cfg) h none = some c ∧
+      ((y.u.win.curAddr = ADDR_FUNCTION_CONTROL ∧ y.p.r04 = functionControl c ∧ y.p.r0A = y.u.ctl.cur0A) ∨
+       (y.u.win.curAddr = ADDR_OTG_CONTROL ∧ y.p.r0A = otgControl c ∧ y.p.r04 = y.u.ctl.cur04)) := by
+  intro y hd
+  have h0 : AccRel (World.init cfg) none := by
+    unfold AccRel
+    refine ⟨(fun c hc => nomatch hc), ?_, ?_⟩ <;> simp [World.init, Utmi.init]
+  obtain ⟨a1, a2, _⟩ := accRel_run cfg (World.init cfg) h none h0
+  have hne := a2 (Or.inr hd)
+  obtain ⟨c, hc⟩ := Option.ne_none_iff_exists'.mp hne
+  have hc' : lastAccepted cfg (Utmi.init cfg) h none = some c := hc
+  obtain ⟨e4, eA⟩ := a1 c hc
+  obtain ⟨_, _, _, h4, _⟩ := phy_tracks_window cfg h hl
+  refine ⟨c, hc', ?_⟩
+  rcases h4 hd with ⟨g1, g2, g3, g4⟩ | ⟨g1, g2, g3, g4⟩
+  · left; exact ⟨g1, by rw [g2, g3]; exact e4, g4⟩
+  · right; exact ⟨g1, by rw [g2, g3]; exact eA, g4⟩
+
 
 /-! ## Convergence -/
 
@@ -458,6 +556,15 @@ theorem converges_from_reset (cfg : Config) (K T : Nat) (c : Controls) (h0 h : L
   exact converges cfg K T c _ h hc1 hl1 hr1 hcc ho.2 hn
 
 
+/-- Without a `rst` member in the ULPI record the start-up timer is bypassed: `phy_ready` holds after
+the first cycle, so `converges_from_reset` applies with any non-empty prefix `h0`. -/
+theorem ready_after_first_cycle (cfg : Config) (hc : cfg.hasRst = false) (i : UtmiIn) (is : List UtmiIn) :
+    (Utmi.run cfg (Utmi.init cfg) (i :: is)).phyReady = true := by
+  have h1 : ((Utmi.init cfg).step cfg i).1.phyReady = true := by simp [Utmi.step, hc]
+  have := ready_run cfg ⟨((Utmi.init cfg).step cfg i).1, {}, {}⟩ is h1
+  rw [World.run_u] at this
+  exact this
+
 /-- `P` holds in the start state and after every prefix of the history (the whole history included). -/
 def Along (cfg : Config) (P : World → Bool) : World → List UtmiIn → Bool
   | x, [] => P x
@@ -497,7 +604,7 @@ theorem coh_tx_free (x : World) (hc : Coh x) (h : x.u.tx.outReq = false) : x.u.t
 theorem rank_le_free (K T v04 v0A : Nat) (x : World) (hc : Coh x) (hf : x.u.tx.outReq = false) :
     rank K T v04 v0A x ≤ 3 * (2 * K + 6) := by
   have ht := coh_tx_free x hc hf
-  obtain ⟨⟨win, ctl, tx, rx, rdy, cnt⟩, ⟨pb, r4, rA, po, pw⟩, ⟨pd, wt, tl, mh, dn⟩⟩ := x
+  obtain ⟨⟨win, ctl, tx, rx, rdy, cnt⟩, ⟨pb, r4, rA, po, pw⟩, ⟨pd, wt, tl, mh, dn, a4, aA⟩⟩ := x
   obtain ⟨wst, ca, cw, d, oq, sp, wdn, rd⟩ := win
   simp only at ht
   subst ht
@@ -621,7 +728,7 @@ theorem write_wait_low (cfg : Config) (K T : Nat) (c : Controls) (x : World) (h 
     · rw [hm]; omega
 
 theorem txRank_le (K T : Nat) (x : World) : txRank K T x ≤ K + 2 + T := by
-  obtain ⟨⟨win, ctl, ⟨tst, treq⟩, rx, rdy, cnt⟩, p, ⟨pd, wt, tl, mh, dn⟩⟩ := x
+  obtain ⟨⟨win, ctl, ⟨tst, treq⟩, rx, rdy, cnt⟩, p, ⟨pd, wt, tl, mh, dn, a4, aA⟩⟩ := x
   cases tst <;> cases treq <;> cases pd <;> simp only [txRank, if_true, if_false, Bool.false_eq_true] <;> omega
 
 /-- **no_mutual_blocking, register writes** (history level).  Control inputs constant, hypotheses
@@ -684,6 +791,11 @@ example : LiveOk {} 1 3 (World.init {}) (exH0 ++ exH) = true ∧ ctrlConst exCtr
     (World.run {} (World.init {}) (exH0 ++ exH)).p.r04 = 0x44 ∧
     (World.run {} (World.init {}) (exH0 ++ exH)).p.r0A = 0 ∧
     (World.run {} (World.init {}) (exH0 ++ exH)).p.writes = 2 := by decide +kernel
+
+/-- Non-vacuity of `write_carries_requested_value`: after ten cycles the first write is `done`. -/
+example : SafeOk {} (World.init {}) (exH0 ++ exH.take 9) = true ∧
+    (World.run {} (World.init {}) (exH0 ++ exH.take 9)).u.win.done = true ∧
+    lastAccepted {} (Utmi.init {}) (exH0 ++ exH.take 9) none = some exCtrl := by decide +kernel
 
 /-- Non-vacuity of `tx_delay_bounded`: during the first 16 cycles of `exH` the transmitter waits. -/
 example : Along {} txUnstarted (World.run {} (World.init {}) exH0) (exH.take 16) = true ∧
